@@ -73,9 +73,13 @@ func genC13(seed uint64, run int, tier string) Scenario {
 		}
 		op.Stop = r.IntN(2) == 0
 		inForce := sc.FailedWhen
-		if r.IntN(2) == 0 {
+		switch r.IntN(6) {
+		case 0, 1, 2:
 			op.FailedOp = opList
 			inForce = opList
+		case 3:
+			// an empty operation-level list does not replace the driver's
+			op.FailedOpEmpty = true
 		}
 		other := opList
 		if op.FailedOp != nil {
